@@ -219,9 +219,10 @@ OVERRIDES = {
    technique="contract-based deductive verification of stream alignment under resolution (every reader, exceptional exits allowed) and of the promotion / enum-default helpers; bounded differential checking against an executable resolution oracle"),
  "C11": dict(cat="exploration", design="0.3, 0.10, 7/C11",
    text=("Bounded stand-in (labelled bounded, never counted as proved): parse_schema against an independent parser written from the "
-         "specification on valid schemas; every listed kind of ill-forming mutation at every position. Deductive piece only: schema_name "
-         "returns exactly the (namespace, full name) pair the specification's 'Names' rules prescribe. Level therefore exploration."),
-   note="Oracle: spec/schema.py (written from the Avro specification and the property text); two defects fixed (decimal precision 0; union-typed field defaults / bool as int default).",
+         "specification on valid schemas; every listed kind of ill-forming mutation at every position. Deductive pieces only: schema_name "
+         "returns exactly the (namespace, full name) pair the specification's 'Names' rules prescribe; _default_matches_schema accepts a "
+         "default exactly when it has the JSON kind the (non-union) field type expects. Level therefore exploration."),
+   note="Oracle: spec/schema.py (written from the Avro specification and the property text); three defects fixed (decimal precision 0; union-typed field defaults / bool as int default; bool as float/double default).",
    technique="bounded differential checking against an independent schema parser; contract-based deductive verification of the name rule"),
  "C12": dict(cat="exploration", design="0.3, 0.10, 7/C12",
    text=("Bounded stand-in (labelled bounded, never counted as proved): idempotence (same object returned); raw / parsed / "
